@@ -71,11 +71,12 @@ def scalar_alphabet(consts, dtype):
         c = dtype(c)
         vals += [float(np.nextafter(c, dtype(-np.inf))), float(c), float(np.nextafter(c, dtype(np.inf)))]
     out, seen = [], set()
-    tiny = float(np.finfo(dtype).tiny)
+    tiny = 1e-30 if dtype == np.float64 else 1e-18
     for v in vals:
         v = float(dtype(v))
         if v != 0 and abs(v) < tiny:
-            # XLA:CPU flushes denormals to zero, so the float neighbours of 0 are the smallest NORMAL numbers
+            # XLA:CPU flushes denormals to zero, and at the smallest normal numbers 1/x (the gradient of log) already
+            # overflows: the "neighbours of 0" of the alphabet are +-1e-30 (float64) / +-1e-18 (float32)
             v = float(np.sign(v)) * tiny
         if v not in seen:
             seen.add(v)
